@@ -33,6 +33,33 @@ func (x02) Gen(tier string, seed int64, emit func([]Ev)) {
 		}
 	}
 	emit([]Ev{{"op": "newaf", "v": 2, "kind": "new"}})
+	// Create(pid, options...) with every option helper of create.go, in any order and number (TsPacket / Create!ExpectCreate)
+	kinds := []string{"pay", "af", "priv", "pusi", "cont", "disc", "pes"}
+	for k := 0; k < 60*per; k++ {
+		opts := []Ev{}
+		for n := r.Intn(6); n > 0; n-- {
+			o := Ev{"k": kinds[r.Intn(len(kinds))], "pts": W64(0)}
+			if k%3 == 0 && n%2 == 0 {
+				o["k"] = "pes" // several PES starts and flags around them
+			}
+			if GS(o["k"]) == "pes" {
+				v := uint64(r.Int63n(1 << 33))
+				switch r.Intn(4) {
+				case 0:
+					v = 1<<33 - 1
+				case 1:
+					v = uint64(1) << uint(r.Intn(33))
+				}
+				o["pts"] = W64(v)
+			}
+			opts = append(opts, o)
+		}
+		pid := r.Intn(8192)
+		if k%7 == 0 {
+			pid = []int{0, 8191, 256, 255, 4096}[k/7%5]
+		}
+		emit([]Ev{{"op": "createseq", "pid": pid, "opts": opts, "kind": "create"}})
+	}
 	// adaptation fields of length 183 that are completely full (cannot shrink)
 	for k := 0; k < 20*per; k++ {
 		a := absAF{Len: 183, HasTPD: true, TPD: rndBytes(r, 181)}
@@ -58,6 +85,35 @@ func (x02) Exec(h []Ev) []Ev {
 			})
 			continue
 		}
+		if GS(e["op"]) == "createseq" {
+			e["panic"] = guard(func() {
+				var fs []func(*packet.Packet)
+				for _, om := range x02Opts(e["opts"]) {
+					switch GS(om["k"]) {
+					case "pay":
+						fs = append(fs, packet.WithHasPayloadFlag)
+					case "af":
+						fs = append(fs, packet.WithHasAdaptationFieldFlag)
+					case "priv":
+						fs = append(fs, packet.WithAFPrivateDataFlag)
+					case "pusi":
+						fs = append(fs, packet.WithPUSI)
+					case "cont":
+						fs = append(fs, packet.WithContinuousAF)
+					case "disc":
+						fs = append(fs, packet.WithDiscontinuousAF)
+					case "pes":
+						pts := UW64(om["pts"])
+						fs = append(fs, func(p *packet.Packet) { packet.WithPES(p, pts) })
+					default:
+						panic("harness: unknown option")
+					}
+				}
+				p := packet.Create(GI(e["pid"]), fs...)
+				e["after"] = B(p[:])
+			})
+			continue
+		}
 		e["panic"] = guard(func() {
 			var p packet.Packet
 			copy(p[:], GB(e["before"]))
@@ -74,6 +130,33 @@ func (x02) Class(e Ev) string {
 	if GS(e["op"]) == "newaf" {
 		return "newaf"
 	}
+	if GS(e["op"]) == "createseq" {
+		c := "create"
+		for _, om := range x02Opts(e["opts"]) {
+			c += "/" + GS(om["k"])
+		}
+		return c
+	}
 	b := GB(e["before"])
 	return fmt.Sprintf("setafc/%s/from%d/to%d/%s", GS(e["kind"]), b[3]>>4&3, GI(e["v"]), GS(e["err"]))
+}
+
+// x02Opts reads the option list of a createseq event (as generated, or as read back from JSON).
+func x02Opts(v interface{}) []Ev {
+	switch l := v.(type) {
+	case []Ev:
+		return l
+	case []interface{}:
+		r := []Ev{}
+		for _, o := range l {
+			switch m := o.(type) {
+			case Ev:
+				r = append(r, m)
+			case map[string]interface{}:
+				r = append(r, Ev(m))
+			}
+		}
+		return r
+	}
+	return nil
 }
